@@ -1,6 +1,8 @@
 pub mod ast;
 pub mod budget;
 pub mod c09;
+pub mod c16;
+pub mod capi;
 pub mod dlengine;
 pub mod driver;
 pub mod faults;
@@ -49,6 +51,13 @@ fn main() {
     let args: Vec<String> = std::env::args().collect();
     let verif_dir = std::env::var("VERIF_DIR").unwrap_or_else(|_| "/verif".to_string());
     let cmd = args.get(1).cloned().unwrap_or_default();
+    if cmd == "worker" || cmd == "exec-case" {
+        // a worker may be killed by the case it executes: no core files
+        unsafe {
+            let lim = libc::rlimit { rlim_cur: 0, rlim_max: 0 };
+            libc::setrlimit(libc::RLIMIT_CORE, &lim);
+        }
+    }
     let code = match cmd.as_str() {
         "check" => {
             let property = arg(&args, "--property").expect("--property");
@@ -74,6 +83,7 @@ fn main() {
             let after = arg(&args, "--after").and_then(|s| s.parse::<i64>().ok()).unwrap_or(-1);
             match property.as_str() {
                 "C09" => driver::worker_loop(&c09::C09Engine, seed, runs, stride, offset, after),
+                "C19" => driver::worker_loop(&capi::CapiEngine, seed, runs, stride, offset, after),
                 _ => {}
             }
             0
@@ -133,6 +143,7 @@ fn digests(property: &str, seed: u64, runs: usize, threads: usize) -> Vec<(u64, 
         "C05" => driver::digests(&dlengine::DlEngine, seed, runs, threads),
         "C10" => driver::digests(&budget::BudgetEngine, seed, runs, threads),
         "C09" => driver::digests(&c09::C09Engine, seed, runs, threads),
+        "C19" => driver::digests(&capi::CapiEngine, seed, runs, threads),
         p => driver::digests(&worldengine::WorldEngine::new(p), seed, runs, threads),
     }
 }
@@ -151,6 +162,7 @@ fn check(property: &str, tier: &str, seed: u64, threads: usize, runs: Option<usi
             let e = worldengine::WorldEngine::new(property);
             let (q, t) = match property {
                 "C01" => (1500, 60_000),
+                "C16" => (1500, 80_000),
                 "C11" | "C13" => (2000, 100_000),
                 _ => (3000, 200_000),
             };
@@ -159,6 +171,7 @@ fn check(property: &str, tier: &str, seed: u64, threads: usize, runs: Option<usi
         "C05" => driver::run_check(&dlengine::DlEngine, &mk(20000, 2_000_000)).exit_code,
         "C10" => driver::run_check(&budget::BudgetEngine, &mk(4000, 400_000)).exit_code,
         "C09" => driver::run_check(&c09::C09Engine, &mk(3000, 300_000)).exit_code,
+        "C19" => driver::run_check(&capi::CapiEngine, &mk(3000, 300_000)).exit_code,
         other => {
             eprintln!("HARNESS: no check for property {other}");
             2
@@ -186,6 +199,13 @@ fn replay(path: &str, verif_dir: &str, isolated: bool) -> i32 {
         "world" => driver::replay(&worldengine::WorldEngine::new(&property), &doc, verif_dir),
         "datalog" => driver::replay(&dlengine::DlEngine, &doc, verif_dir),
         "budget" => driver::replay(&budget::BudgetEngine, &doc, verif_dir),
+        "capi" => {
+            if isolated {
+                driver::replay_isolated(&capi::CapiEngine, &doc, verif_dir)
+            } else {
+                driver::replay(&capi::CapiEngine, &doc, verif_dir)
+            }
+        }
         "untrusted" => {
             if isolated {
                 driver::replay_isolated(&c09::C09Engine, &doc, verif_dir)
